@@ -24,6 +24,34 @@ def _corr_chunk(args):
     texts = [head_text(f, random.Random(seed * 13 + i)) for i, f in enumerate(forms)]
     return impl_theory.check_head(texts, 3, MODEL)
 
+def _rules_chunk(args):
+    """the rules really written for head formulas during a run vs the model's `ruleShape` (tools/impl_theory.check_head_rules)"""
+    seed, n = args
+    r = random.Random(seed)
+    tot = {"head_rules": 0, "head_formula_steps": 0, "programs": 0}
+    dis = []
+    for i in range(n):
+        k = r.random()
+        if k < 0.5:
+            f = gen.gen_hform(r, r.randint(1, 3), ATOMS)
+            text = "#program {}. &tel {{ {} }}. #program always. {{ a }}. {}".format(r.choice(["initial", "initial", "always", "dynamic"]), tl.render_tel(f),
+                                                                                   r.choice(["", "b.", "#program initial. b."]))
+        else:
+            text = tl.render_prog(gen.gen_head_prog(r, ATOMS, 2))
+        try:
+            st, d = impl_theory.check_head_rules(text, 3, MODEL)
+        except BaseException as e:  # noqa
+            if isinstance(e, KeyboardInterrupt):
+                raise
+            # a program telingo rejects with a diagnostic, or a slow one, is skipped: there are no rules to compare
+            st, d = {}, ([] if tl.classify_exc(e) in ("Timeout", "RuntimeError", "ClingoError") else
+                         [{"layer": "L4-head-rules", "text": text, "what": "exception: {}: {}".format(tl.classify_exc(e), str(e)[:200])}])
+        tot["programs"] += 1
+        for kk in ("head_rules", "head_formula_steps"):
+            tot[kk] += st.get(kk, 0)
+        dis += d
+    return tot, dis
+
 def correspondence(ctx):
     r = random.Random(ctx.seed * 41 + 3)
     forms = gen.head_pair_grid(ATOMS) + [gen.gen_hform(r, r.randint(1, 4), ATOMS) for _ in range(100 if ctx.tier == "quick" else 1500)]
@@ -42,6 +70,12 @@ def correspondence(ctx):
         niv += c
         dis += d
     tot["interval_sequences"] = niv
+    em = {"head_rules": 0, "head_formula_steps": 0, "programs": 0}
+    for st, d in par.pmap(_rules_chunk, [(ctx.seed * 193 + j, 4 if ctx.tier == "quick" else 60) for j in range(ctx.jobs)], ctx.jobs):
+        for kk in em:
+            em[kk] += st[kk]
+        dis += d
+    tot["emitted_head_rules"] = em
     return tot, dis
 
 def prog_cases(seed, n, tier):
